@@ -236,6 +236,19 @@ def stmtExpect (d : Dev) (a : Action) (o : Oracle) (pat : Nat) : StepR :=
     let tele := if a.telemetry then teleMem a.clientId "recv(dev): '" (subject.take eo) else []
     ⟨d, a, o, errs ++ tele, true⟩
 
+/-- what `cbuf_peek(dev->to)` shows after `cbuf_write(dev->to, …)` made the buffer hold `b` = (what was queued ++ what is
+    written): `dev->to` is a `cbuf_create(MIN_DEV_BUF, MAX_DEV_BUF)` in liblsd's default overwrite mode (`CBUF_WRAP_MANY`), it
+    grows up to `MAX_DEV_BUF` = 65536 bytes and then the oldest unsent bytes give way to the new ones (`cbuf_writer`:
+    `i_out = i_rep = i_in + 1`, `used = size`); of a single write longer than the buffer only the last 65536 bytes survive.
+    Equal to `b.drop (b.length - 65536)` (`Pm/ToBuf.lean`: `clipTo_eq_drop`); written with the comparison first because
+    the kernel evaluates `n - 65536` for an unknown `n` by 65536 nested `Nat.pred`s ("deep recursion") wherever it has to
+    look into the result, while `65536 < n` gets stuck at once. -/
+def clipTo (b : Bytes) : Bytes := if 65536 < b.length then b.drop (b.length - 65536) else b
+
+/-- `dropped > 0` after `cbuf_write(dev->to, s, |s|, &dropped)` with `old` queued: `cbuf_grow` gives room up to
+    `MAX_DEV_BUF`, so `dropped = max 0 (|old| + |s| - 65536)` -/
+def toOverrun (old s : Bytes) : Bool := 65536 < (old ++ s).length
+
 /-- `_process_send` -/
 def stmtSend (d : Dev) (a : Action) (o : Oracle) (e : ExecCtx) (fmt : Bytes) : StepR :=
   if !e.processing then
@@ -246,8 +259,10 @@ def stmtSend (d : Dev) (a : Action) (o : Oracle) (e : ExecCtx) (fmt : Bytes) : S
     match so with
     | none => ⟨d, a, o, [.abortAssert "hostlist_sort assert in _process_send"], true⟩
     | some s =>
-    let d := { d with toBuf := d.toBuf ++ s }
-    let tele := if a.telemetry then teleMem a.clientId "send(dev): '" s else []
+    -- `written = cbuf_write(dev->to, str, strlen(str), &dropped)`: an overrun (`dropped > 0`) is logged and the telemetry
+    -- line is *not* produced (`else if (dropped > 0) err(…) else { … vpf_fun(…) }`)
+    let tele := if toOverrun d.toBuf s then [] else if a.telemetry then teleMem a.clientId "send(dev): '" s else []
+    let d := { d with toBuf := clipTo (d.toBuf ++ s) }
     let a := setTop a { e with processing := true }
     if d.toBuf.isEmpty then ⟨d, setTop a { e with processing := false }, o, [.sent s] ++ tele, true⟩
     else ⟨d, a, o, [.sent s] ++ tele, false⟩
@@ -488,7 +503,9 @@ def telnetFilter (d : Dev) (new : Bytes) : Dev :=
       let (st, cmd, kept, reply) := acc
       let (st', cmd', k, r) := telnetStep st cmd b
       (st', cmd', kept ++ k, reply ++ r)) (d.tstate, d.tcmd, [], [])
-  { d with tstate := st, tcmd := cmd, fromBuf := d.fromBuf ++ kept, toBuf := d.toBuf ++ reply }
+  -- every answer is one `cbuf_write(dev->to, str, 3, NULL)` (`_telnet_sendopt`): what survives of a sequence of overwriting
+  -- writes is what survives of their concatenation (`Pm/ToBuf.lean`: `clipTo_clipTo_append`)
+  { d with tstate := st, tcmd := cmd, fromBuf := d.fromBuf ++ kept, toBuf := clipTo (d.toBuf ++ reply) }
 
 /-- `MAX_DEV_BUF` -/
 def devBufMax : Nat := 65536
